@@ -14,7 +14,8 @@ CTX = {"a": 1, "b": "x<y", "lst": [7, 8], "dct": {"k": "v", "n": 2}, "e": []}
 
 # atom: (source text, python value)
 ATOMS = [("a", 1), ("b", "x<y"), ("42", 42), ("'s t'", "s t"), ('"q"', "q"), ("_('tr')", "tr"), ("b|upper", "X<Y"), ("e|default:'z'", "z"),
-         ("'v {{ a }}'", "v 1"), ('"%} x"', "%} x")]
+         ("'v {{ a }}'", "v 1"), ('"%} x"', "%} x"),
+         ("'it\\'s'", "it's"), ('"say \\"hi\\""', 'say "hi"')]
 LIST_SPREADS = [("*lst", [7, 8]), ("*e", [])]
 DICT_SPREADS = [("**dct", {"k": "v", "n": 2})]
 KEYS = [('"k1"', "k1"), ("b", "x<y"), ("'k 2'", "k 2")]
